@@ -207,8 +207,11 @@ Proof.
 Qed.
 Print Assumptions pinned_family_only_refuted.
 
-(* a failed construction leaves the store unchanged; registries are read-only
-   parameters of every function of the model (no function returns one) *)
+(* DEFINITIONAL IN THE MODEL (audit C17-2): store_add_one is defined to return the old store next to an escaping
+   exception, and registries are read-only parameters of every model function (no function returns one), so this
+   theorem and the next state how the model was written, not a fact about the code.  What ties the clause "a failed
+   construction leaves registries and stores unchanged" to the code is the oracle: deep registry snapshots and store
+   snapshots around every failing call of the correspondence run. *)
 Theorem failed_construct_no_effect :
   forall V R clean strictext refuse dec (st : store) (x : jvalue) version st' e s,
   In (st', Escaped e s) (store_add_one V R clean strictext refuse dec st x version) ->
@@ -239,6 +242,17 @@ Example repaired_all_guarded : all_guarded repaired.
 Proof. intros s. reflexivity. Qed.
 Example blackbox_exists : exists cl : blackbox, well_behaved cl.
 Proof. exists (fun _ _ _ _ => CleanRaise (Derived 7 (Known K_RecursionError)) None). intros ac io s ov e sf H. inversion H. split; reflexivity. Qed.
+(* ... and one that lets every cleaning succeed (audit C17-4): with it the repaired model on the live tables accepts a
+   plain 2.1 identity, so the theorems are not about a model that can only fail *)
+Example blackbox_ok_exists : exists cl : blackbox, well_behaved cl /\
+  In (Val PObject) (parse repaired live (clean_via cl) true true (dec_table []) (identity21 []) false false None).
+Proof.
+  exists (fun _ _ _ _ => CleanOk). split; [intros ac io s ov e sf H; discriminate H|].
+  vm_compute. left. reflexivity.
+Qed.
+Example junk_value_is_refused :
+  parse repaired live clean_any true true (dec_table []) (JInt 5) false false None = [Exc (Known K_ValueError) S_lib].
+Proof. vm_compute. reflexivity. Qed.
 Example recursion_error_is_wrapped :
   check_property_wrapper (CleanRaise (Known K_RecursionError) None) = Exc (Known K_InvalidValueError) S_lib.
 Proof. reflexivity. Qed.
